@@ -351,10 +351,13 @@ where
                                     }
                                 }
 
+                                // a descending extent holds no items; widened so that extreme bounds cannot overflow
+                                let count = if end < start { 0 } else { (*end as i64 - *start as i64 + 1) as usize };
+
                                 top_level_con_items
                                     .iter()
                                     .skip(*start as usize)
-                                    .take((end - start) as usize + 1)
+                                    .take(count)
                                     .map(usize::clone)
                                     .for_each(|i| items.push(i));
                             }
